@@ -197,7 +197,12 @@ def run(ctx):
     pm = prog.module("_protocol")
     protos = [c for c in pm.classes.values() if any("Int32StringReceiver" in b for x in prog.mro(c) for b in x.base_names)]
     need(len(protos) >= 2, "protocol classes not found")
+    FRAMING = {"dataReceived", "sendString", "makeConnection", "pauseProducing", "resumeProducing", "stopProducing"}
     for c in sorted(protos, key=lambda c: c.name):
+        over = sorted(FRAMING & set(c.methods))
+        r.check(not over, "_protocol:%s#framing-not-overridden" % c.name, "the protocol class overrides %s of the length-prefixed receiver" % over,
+                "afkak/_protocol.py:%d" % c.node.lineno, "bytes of a reply to a live request are dropped or re-framed: that request is neither "
+                "resolved nor is its timer released; it is re-sent although it was answered")
         ml = None
         for x in prog.mro(c):
             if "MAX_LENGTH" in x.class_attrs:
